@@ -47,6 +47,7 @@ struct Node
     bool dir = false;
     std::string data;
     bool created_by_run = false;
+    bool readonly = false; // mode 0444: opening for writing fails with EACCES
 };
 
 enum Kind
@@ -371,6 +372,13 @@ static int sim_open_fd(const std::string& abs, bool wr, bool trunc, bool append)
         {
             note_hard("open(" + abs + ") natural EISDIR", true);
             errno = EISDIR;
+            return -1;
+        }
+        if(it != g.fs.end() && it->second.readonly)
+        {
+            note_hard("open(" + abs + ") natural EACCES (read-only file)", true);
+            sim::stats().count("fault.fired.natural.readonly_output");
+            errno = EACCES;
             return -1;
         }
         Node& n = g.fs[abs];
@@ -1603,8 +1611,13 @@ Result exec_plan(const Plan& plan)
                     g.fs[*i] = dn;
                 }
                 Node fnode;
-                switch(how % 4)
+                switch(how % 5)
                 {
+                case 4:
+                    // a previous run's file that was made read-only (only some of them)
+                    fnode.data = kv.second;
+                    fnode.readonly = r.chance(1, 4);
+                    break;
                 case 0: fnode.data = kv.second + std::string(1 + r.below(3000), '#'); break; // longer than the new content
                 case 1: fnode.data = kv.second.substr(0, kv.second.size() / 2); break;        // torn
                 case 2: fnode.data = "stale content of another schema\n"; break;
@@ -1934,7 +1947,7 @@ Plan gen_c20(u64 seed, const std::string& tier)
             Op pf;
             pf.name = "prefill";
             pf.s = {wl.chance(1, 2) ? s : schemas[wl.below(schemas.size())]};
-            pf.a = {outv, (long)wl.below(4), (long)wl.below(1000)};
+            pf.a = {outv, (long)wl.below(5), (long)wl.below(1000)};
             p.ops.push_back(pf);
         }
         const bool last = i + 1 == nruns;
